@@ -618,6 +618,26 @@ def rule_wc2(ctx: Ctx) -> RuleResult:
                     f = m.enclosing_function(f)
                 owners = [s_ for s_, fns in reached_by_site(ctx, mux_only=True).items() if any(f in fns for f in chain)]
                 ok = bool(owners) and all(any((s_.short + ".").startswith(pfx) for pfx in table.get(s_.anchor_rel, ())) for s_ in owners)
+            if not ok and fn is not None:
+                # a construction no analysed path executes (it sits under an option of the operator that is off by default -- an
+                # extension, see Ctx.space) originates nothing for the callers the properties speak about
+                from .common import reached_by_site
+                chain = []
+                f = fn
+                while f is not None:
+                    chain.append(f)
+                    f = m.enclosing_function(f)
+                sites_ = [s_ for s_, fns in reached_by_site(ctx, mux_only=True).items() if any(f in fns for f in chain)]
+                if sites_ and ctx.extensions:
+                    executed = False
+                    for s_ in sites_:
+                        for spec in s_.handler_specs("on_next"):
+                            for kind, cfg, paths in ctx.all_paths(spec):
+                                for p in paths:
+                                    if any(getattr(e, "node", None) is not None and any(x is node for x in ast.walk(e.node)) for e in p.trace):
+                                        executed = True
+                    if not executed:
+                        ok = True
             r.instances += 1
             r.ob(ok, lambda: Finding("WC-2", "%s::%s{%s}" % (rel, qn, last), m.where(node),
                                      "%s is constructed outside the operators allowed to originate it; the protocol argument "
